@@ -99,6 +99,74 @@ def call(name, doc):
         return ("raised", type(e).__name__)
 
 
+def rich_documents():
+    """hand-built documents exercising the exporters' special cases (each returns a fresh document)"""
+    import datetime
+    from prov.identifier import Namespace, QualifiedName
+    from prov.model import Literal, ProvBundle
+    EX = Namespace("ex", "http://a/")
+    OT = Namespace("other", "http://c/")
+    PR = Namespace("prov", "http://www.w3.org/ns/prov#")
+    T1 = datetime.datetime(2012, 3, 4, 5, 6, 7)
+
+    def dup_same_attr():
+        d = ProvDocument()
+        d.add_namespace("ex", "http://a/")
+        d.entity("ex:x", {"ex:k": 1, "prov:type": EX["T1"], "prov:label": "one"})
+        d.entity("ex:x", {"ex:k": 2, "prov:type": EX["T2"]})
+        d.activity("ex:a", T1)
+        d.activity("ex:a", None, None, {"ex:k": "v"})
+        d.generation("ex:x", "ex:a", identifier="ex:g", other_attributes={"ex:k": 1})
+        d.generation("ex:x", "ex:a", identifier="ex:g", other_attributes={"ex:k": 2})
+        return d
+
+    def dup_in_bundle():
+        d = ProvDocument()
+        d.add_namespace("ex", "http://a/")
+        b = d.bundle("ex:b1")
+        b.entity("ex:x", {"ex:k": 1})
+        b.entity("ex:x", {"ex:k": 2})
+        b.agent("ex:x", {"prov:type": PR["Person"]})
+        return d
+
+    def attached_bundle():
+        d = ProvDocument()
+        d.add_namespace("ex", "http://a/")
+        d.entity("ex:top")
+        b = ProvBundle(identifier=QualifiedName(OT, "b9"))
+        b.entity(QualifiedName(OT, "inside"), {QualifiedName(OT, "k"): QualifiedName(OT, "v")})
+        d.add_bundle(b)
+        b2 = ProvBundle(identifier=QualifiedName(Namespace("", "http://dflt/"), "b10"))
+        b2.set_default_namespace("http://dflt/")
+        b2.entity("bare")
+        d.add_bundle(b2)
+        return d
+
+    def subtypes():
+        d = ProvDocument()
+        d.add_namespace("ex", "http://a/")
+        d.agent("ex:p", {"prov:type": PR["Person"], "prov:label": Literal("Pierre", langtag="fr")})
+        d.agent("ex:o", {"prov:type": [PR["Organization"], EX["Firm"]]} if False else {"prov:type": PR["Organization"]})
+        d.collection("ex:c")
+        d.revision("ex:e2", "ex:e1", identifier="ex:rev")
+        d.membership("ex:c", "ex:e1")
+        d.mention("ex:e2", "ex:e1", "ex:b")
+        return d
+
+    def two_documents_updated():
+        d = ProvDocument()
+        d.set_default_namespace("http://a/")
+        d.entity("e1", {"k": "v"})
+        o = ProvDocument()
+        o.add_namespace("ex", "http://b/")
+        o.bundle("ex:b").entity("ex:e", {"ex:k": 1.5})
+        d.update(o)
+        return d
+    return [("duplicates-same-attribute", dup_same_attr), ("duplicates-in-bundle", dup_in_bundle),
+            ("bundles-attached-with-add_bundle", attached_bundle), ("subtypes-and-convenience-records", subtypes),
+            ("updated-from-another-document", two_documents_updated)]
+
+
 class C13(spec.Spec):
     prop = "C13"
 
@@ -113,10 +181,22 @@ class C13(spec.Spec):
             for seq in itertools.product(names, repeat=k):
                 self.run_seq(hist, seq, out)
 
+    def rich_case(self, item, out):
+        name, n = item
+        names = [e[0] for e in EXPORTERS]
+        for k in range(1, n + 1):
+            for seq in itertools.product(names, repeat=k):
+                self.run_seq(("rich", name), seq, out)
+
+    def fresh_doc(self, hist):
+        if hist and hist[0] == "rich":
+            return dict(rich_documents())[hist[1]]()
+        return self.fresh(hist).doc
+
     def run_seq(self, hist, seq, out):
-        doc = self.fresh(hist).doc
+        doc = self.fresh_doc(hist)
         base = full_obs(doc)
-        hh = ("seq", self.ops(hist), list(seq))
+        hh = ("seq", list(hist) if hist and hist[0] == "rich" else self.ops(hist), list(seq))
         out.evaluations += 1
         last = None
         for k, name in enumerate(seq):
@@ -138,7 +218,7 @@ class C13(spec.Spec):
             if full_obs(doc) != base:
                 out.violation("export-mutates-document", "%s:second-call" % name, {}, hh)
                 return
-        twin = self.fresh(hist).doc
+        twin = self.fresh_doc(hist)
         tw = call(name, twin)
         if tw != last:
             if name == "rdf" and last[0] == "ok" and tw[0] == "ok" and _rdf_isomorphic(last[1], tw[1]):
@@ -150,7 +230,7 @@ class C13(spec.Spec):
         out.outcomes["%s:%s" % (name, last[0])] += 1
         out.nontrivial += 1
         out.conform += 1
-        if len(out.samples) < 1 and len(seq) > 1 and len(hist) > 2:
+        if len(out.samples) < 1 and len(seq) > 1 and len(hist) > 2 and hist[0] != "rich":
             out.samples.append({"history": self.ops(hist), "exports": list(seq)})
 
     def ops(self, hist):
@@ -204,6 +284,10 @@ def main(tier, seed):
     out2 = explore.pmap(__name__, tier, {}, "state_case", items, chunk=2)
     out.merge(out2)
     out.evaluations -= len(items)
+    rich = [(name, 2 if tier == "quick" else 3) for name, _ in rich_documents()]
+    out3 = explore.pmap(__name__, tier, {}, "rich_case", rich, chunk=1)
+    out3.evaluations -= len(rich)
+    out.merge(out3)
     vs, nsig = runner.violations_json(sp, out)
     cov = runner.coverage_from(out, stats, sp, (
         "all %d states of the 57-letter document alphabet to depth %d x every ordered sequence of exporter calls "
@@ -221,7 +305,10 @@ def replay(item, tier, seed):
     out = explore.Out()
     h = item.get("history", [])
     if h and h[0] == "seq":
-        sp.run_seq(tuple(ast.literal_eval(x) for x in h[1]), tuple(h[2]), out)
+        if h[1] and h[1][0] == "rich":
+            sp.run_seq(tuple(h[1]), tuple(h[2]), out)
+        else:
+            sp.run_seq(tuple(ast.literal_eval(x) for x in h[1]), tuple(h[2]), out)
     vs, _ = runner.violations_json(sp, out)
     return {"property": "C13", "coverage": {"states": 1, "transitions": 1, "traces_validated_against_impl": 1,
             "samples": [{"replayed": h}]}, "violations": vs, "wall_s": 0}
